@@ -35,6 +35,7 @@ ASSUMPTIONS = [
     'the window is modelled by its live part base+pos..end: bytes before pos are never read again by the C code',
     'allocation failure is modelled by a size limit mm (hypothesis hdr_req h <= mm in c04_valid)',
     'data reads (ncmpi_get_var*) are covered by observation only; the theorems are about the header reader',
+    'ncmpi_inq_get_size after a COLLECTIVE header read on >1 ranks may be the final offset (OpenMPI/ompio reports the requested count at end of file); accepted and counted',
 ]
 CHECKER_CMD = ('coq_makefile -f _CoqProject -o Makefile && make -k -j16 Properties_C04.vo && '
                'coqc -Q . Pnc Properties_C04.v (Print Assumptions)')
@@ -75,7 +76,7 @@ def run(ctx):
                           maxdata=MAXDATA))
 
     # A. random specification-valid files, 1 rank, the chunk sizes of the property text
-    nf = 400 if thorough else 36
+    nf = 400 if thorough else 80
     for k in range(nf):
         r = ctx.rng.fork('file-%d' % k)
         f = G.gen_file(r)
@@ -83,7 +84,7 @@ def run(ctx):
         for ch in (36, 40, 64, 128, 4096, None):
             add_case('r%d' % k, ch)
     # B. 2 and 3 ranks, header read collectively / by root only, independent reads too
-    nm = 40 if thorough else 5
+    nm = 40 if thorough else 10
     for k in range(nm):
         for np_ in (2, 3):
             for hint in ('romio_no_indep_rw=true', 'romio_no_indep_rw=false'):
@@ -126,6 +127,7 @@ def run(ctx):
                  by_np={}, hdr_bytes_min=None, hdr_bytes_max=0, chunks_spanned_max=0, static_ties_broken=ties,
                  with_record_data=0, model_wall_s=None)
     disagreements = []
+    oracle_fails = {}
     truth_cache = {}
     for c in cases:
         f, p, data = files[c['name']]
@@ -165,13 +167,11 @@ def run(ctx):
             rc = ''
             if why[0].startswith('line') and why[1].startswith('open '):
                 rc = ':' + why[1].split()[1]
-            ctx.violation('a specification-valid CDF-%d file is not read back exactly: %s; implementation `%s`, encoded content `%s`'
-                          % (f.fmt, why[0], why[1], why[2]),
-                          dict(file_hex=data.hex() if len(data) <= 65536 else None, generator=c['name'], chunk=c['chunk'],
-                               nprocs=c['np'], hints=c['hints'], flags=c['flags'], implementation=lines[:60], expected=truth[:60],
-                               how_to_replay='write file_hex to a file F; PNETCDF_VERIF_HDR_CHUNK=<chunk> [mpiexec -n <nprocs>] '
-                                             'c04_open F [-h <hint>] [-i]; compare with `expected`'),
-                          key='valid-file:cdf%d:%s%s' % (f.fmt, kind, rc))
+            key = 'valid-file:cdf%d:%s%s' % (f.fmt, kind, rc)
+            o = oracle_fails.setdefault(key, dict(n=0, first=None))
+            o['n'] += 1
+            if o['first'] is None:
+                o['first'] = (c, f, data, why, lines, truth)
             continue
         # ---------- correspondence with the extracted model
         bad = None
@@ -186,13 +186,30 @@ def run(ctx):
         elif m['consistent'] != '1':
             bad = 'accepted header not consistent'
         else:
-            d = L.first_diff(lines, m['dump'])
+            md = m['dump']
+            d = L.first_diff(lines, md)
+            if d and c['np'] > 1 and d[1].startswith('sizes ') and d[1].split()[:-1] == d[2].split()[:-1] \
+               and int(d[1].split()[-1]) == m['cost']['offset']:
+                # OpenMPI/ompio: a COLLECTIVE read that hits end of file reports the requested count
+                # (MPI_Get_count), so ncp->get_size is the final offset instead of the bytes in the file
+                stats['collective_read_count_anomalies'] = stats.get('collective_read_count_anomalies', 0) + 1
+                d = L.first_diff(L.mask_getsize(lines), L.mask_getsize(md))
             if d:
                 bad = 'dump line %d: implementation `%s` model `%s`' % (d[0], d[1][:200], d[2][:200])
         if bad:
             stats['model_disagreements'] += 1
             disagreements.append((c, bad))
 
+    for key, o in sorted(oracle_fails.items()):
+        c, f, data, why, lines, truth = o['first']
+        ctx.violation('a specification-valid CDF-%d file is not read back exactly (%d case(s) with this key; first: %s chunk=%s np=%d): %s; '
+                      'implementation `%s`, encoded content `%s`' % (f.fmt, o['n'], c['name'], c['chunk'], c['np'], why[0], why[1], why[2]),
+                      dict(file_hex=data.hex() if len(data) <= 65536 else None, generator=c['name'], chunk=c['chunk'],
+                           nprocs=c['np'], hints=c['hints'], flags=c['flags'], implementation=lines[:60], expected=truth[:60],
+                           cases_with_this_key=o['n'],
+                           how_to_replay='write file_hex to a file F; PNETCDF_VERIF_HDR_CHUNK=<chunk> [mpiexec -n <nprocs>] '
+                                         'c04_open F [-h <hint>] [-i]; compare with `expected`'),
+                      key=key)
     stats['wall_s'] = round(time.time() - t0, 1)
     ctx.cov['rule'] = ('files from tools/c04_gen.py (random schemas in 3 formats with free layout choices; fixed schema for the '
                        'exhaustive chunk/shift sweeps; >=600KiB headers in the thorough tier); a case = (file, chunk, ranks, hints); '
